@@ -38,14 +38,17 @@ ASSUMPTIONS = [
     "TrustZone = 4 bytes per preset word, option words = 4 bytes per word the count rule yields",
     "bit-fields the database marks computed / hidden / reserved are not value-swept; they are recomputed from the bytes",
     "block-describing fields (BCA/FCB tag, XMCD header) are kept at their template values",
-    "enumerated bit-fields are set to the canonical representative of a name class (several raw values may share a name)",
+    "enumerated bit-fields are swept over the first value of every name (a later value that shares its name with an earlier "
+    "one cannot be named by a configuration: recorded as known finding config-enum-name-shared-by-several-values, re-observed "
+    "by a directed witness in every run)",
     "plain registers get values with non-zero end bytes (the length-class ambiguity of reversed registers with "
     "alternative widths is C11's known finding, not judged here)",
     "the fuse map has no binary layout: it is judged by the template and configuration laws only",
     "a PyYAML(1.1)/ruamel(1.2) difference in scalar typing is an observation; rejection by any of them is a violation",
     "the seal covers only words whose names say digest / CRC / CMAC (naming convention of the register data)",
-    "whole-register raw values sweep the bits some uniquely named bit-field describes (hidden ones included); bits that no "
-    "bit-field describes, or that several equally named fields describe, have no name in a configuration and stay at reset",
+    "whole-register raw values sweep the bits some uniquely named bit-field describes (hidden ones included); bits of "
+    "equally named fields stay at reset (known finding config-bitfield-name-used-twice-in-one-register, directed witness), "
+    "bits that no bit-field describes stay at reset",
     "a PFR register with a computed field that is given as ONE raw value is taken as it is (documented): not drawn raw",
 ]
 REQUIRED_COUNTERS = [
@@ -172,6 +175,7 @@ def cases(tier, seed):
             yield {"op": "cli", "kind": kind, "k": k}
     for k in range(8 if tier == "quick" else 80):
         yield {"op": "cli_binary", "kind": "pfr", "k": k}
+    yield {"op": "naming_witness", "kind": "pfr"}
 
 
 def _modes(tier, kind):
@@ -995,7 +999,80 @@ def _run_cli_binary(case, ctx):
            sample={"instance": ad.label(inst), "registers_in_parsed_configuration": len(parsed_cfg.get(ad.settings_key, {}))})
 
 
+K_ENUM_ALIAS = "config-enum-name-shared-by-several-values"
+K_BF_NAME_TWICE = "config-bitfield-name-used-twice-in-one-register"
+K_BITS_UNNAMED = "config-register-bits-without-bitfield-are-dropped"
+NAMING_WITNESS_INSTANCES = [
+    {"kind": "pfr", "family": "mcxn546", "revision": "a0", "sub": "cmpa"},
+    {"kind": "fuses", "family": "mimx9131", "revision": "a0"},
+    {"kind": "fuses", "family": "mcxn546", "revision": "a0"},
+]
+
+
+def _run_naming_witness(case, ctx):
+    """Directed witnesses of the three places where a CONFIGURATION cannot name what a register holds (the value sweeps
+    stay on the nameable side of them, see ASSUMPTIONS): a raw value on the other side is in range for the register, and
+    object -> configuration -> load loses it.  Looked up by structure in fixed instances, so a data repair turns the
+    witness into an ordinary clean case."""
+    for inst0 in NAMING_WITNESS_INSTANCES:
+        inst = dict(inst0)
+        ad = A.ADAPTERS[inst["kind"]]
+        inst["_mode"] = "naming-witness"
+        try:
+            fresh = ad.fresh(inst)
+        except Exception as e:  # pylint: disable=broad-except
+            if core.origin_of(e) != "repo" and not core.is_refusal(e):
+                raise
+            continue  # the instance is not in the database under test
+        found: dict = {}
+        for reg in ad.registers(fresh).get_registers():
+            bfs = [b for b in reg._bitfields if b.width > 0 and b.offset + b.width <= reg.width]  # pylint: disable=protected-access
+            if not bfs or reg.has_group_registers() or reg.reverse or reg.width > 64:
+                continue
+            names = [b.name for b in bfs]
+            described = 0
+            for b in bfs:
+                described |= ((1 << b.width) - 1) << b.offset
+            free = ~described & ((1 << reg.width) - 1)
+            base = reg.get_reset_value()
+            if K_BITS_UNNAMED not in found and free:
+                bit = free & -free
+                found[K_BITS_UNNAMED] = (reg.name, base ^ bit, f"bit {bit.bit_length() - 1} belongs to no bit-field")
+            for b in bfs:
+                if K_BF_NAME_TWICE not in found and names.count(b.name) > 1 and names.index(b.name) != bfs.index(b):
+                    cur = (base >> b.offset) & ((1 << b.width) - 1)
+                    found[K_BF_NAME_TWICE] = (reg.name, base ^ (((cur ^ 1) ^ cur) << b.offset), f"second bit-field called {b.name!r} at bit {b.offset}")
+                enums = [(e.name, e.get_value_int()) for e in b.get_enums() if 0 <= e.get_value_int() < (1 << b.width)]
+                if K_ENUM_ALIAS not in found and names.count(b.name) == 1:
+                    for n, v in enums:
+                        first = next(v2 for n2, v2 in enums if n2 == n)
+                        if first != v:
+                            val = (base & ~(((1 << b.width) - 1) << b.offset)) | (v << b.offset)
+                            found[K_ENUM_ALIAS] = (reg.name, val, f"{b.name} = {v} carries the name {n!r} of the value {first}")
+                            break
+        for key, (rname, val, why) in found.items():
+            obj = ad.fresh(inst)
+            reg = ad.registers(obj).find_reg(rname)
+            reg.set_value(val, raw=True)
+            ok, cfg = _try(ctx, ad, inst, "get_config", ad.get_config, obj, False)
+            if not ok:
+                continue
+            if inst["kind"] == "pfr":
+                cfg = dict(cfg)
+            ok, back = _try(ctx, ad, inst, "load-of-get_config", ad.load, inst, cfg)
+            if not ok:
+                continue
+            got = ad.registers(back).find_reg(rname).get_value(raw=True)
+            ctx.count("naming_witnesses")
+            if got != val:
+                ctx.violation(key, {"instance": ad.label(inst), "register": rname, "value": hex(val), "after_configuration_round_trip": hex(got), "why": why})
+            else:
+                ctx.ok(["naming-witness", key, ad.label(inst)], sample={"register": rname, "value": hex(val), "why": why, "survives": True})
+
+
 def run_case(case, ctx):
+    if case["op"] == "naming_witness":
+        return _run_naming_witness(case, ctx)
     if case["op"] == "cli":
         return _run_cli(case, ctx)
     if case["op"] == "cli_binary":
